@@ -57,7 +57,7 @@ Section SItems.
         | Some (b, depth) => resolve b (depth + 1 + k) EUndefined ctx
         end
     | ISelf b => resolve b 0 EUndefined ctx
-    | IFor v vals body => seqmap (fun x => seqmap (s_item ((v, x) :: L)) body) vals
+    | IFor iters body => seqmap (fun bs => seqmap (s_item (bs ++ L)) body) iters
     end.
 End SItems.
 
